@@ -315,6 +315,34 @@ fn run_set<K: Kernel<D, Scalar = f64>, const D: usize>(rep: &Report, cn: &Cn, kn
     }
 }
 
+/// signed zeros: the raw coordinate bits of every vertex (by UUID) must survive the Tds and the DelaunayTriangulation
+/// route (the semantic fingerprint canonicalises -0.0, so it cannot see this)
+fn signed_zero_route<const D: usize>(rep: &Report, cn: &Cn) {
+    // unit simplex corners with -0.0 in place of 0.0 on alternating axes, plus an interior point
+    let mut pts: Vec<[f64; D]> = Vec::new();
+    pts.push(std::array::from_fn(|i| if i % 2 == 0 { -0.0 } else { 0.0 }));
+    for a in 0..D {
+        pts.push(std::array::from_fn(|i| if i == a { 2.0 } else if (i + a) % 2 == 0 { -0.0 } else { 0.0 }));
+    }
+    pts.push([0.25; D]);
+    let vs: Vec<_> = pts.iter().enumerate().map(|(i, c)| alpha::mk_vertex::<i32, D>(*c, 1 + i as u128, Some(i as i32))).collect();
+    let Ok(dt) = DelaunayTriangulation::<FastKernel<f64>, i32, (), D>::with_topology_guarantee(&FastKernel::default(), &vs, TopologyGuarantee::PLManifold) else { return };
+    let bits = |it: &mut dyn Iterator<Item = (uuid::Uuid, Vec<u64>)>| { let mut v: Vec<(uuid::Uuid, Vec<u64>)> = it.collect(); v.sort(); v };
+    let before = bits(&mut dt.vertices().map(|(_, v)| (v.uuid(), v.point().coords().iter().map(|x| x.to_bits()).collect())));
+    cn.round_trips.fetch_add(1, Ordering::Relaxed);
+    let replay = json!({"D": D, "route": "signed zeros", "points": pts.iter().map(|p| p.iter().map(|x| format!("{x:?}")).collect::<Vec<_>>()).collect::<Vec<_>>()});
+    let Ok(doc) = serde_json::to_string(dt.tds()) else { return };
+    match guarded(|| serde_json::from_str::<Tds<f64, i32, (), D>>(&doc)) {
+        Ok(Ok(t)) => {
+            let after = bits(&mut t.vertices().map(|(_, v)| (v.uuid(), v.point().coords().iter().map(|x| x.to_bits()).collect())));
+            if after != before {
+                rep.violation(Finding { signature: json!({"check": "coordinate_bits_changed", "route": "tds", "D": D}), description: "a JSON round trip changed the bits of a vertex coordinate (sign of zero)".into(), replay: replay.clone() });
+            }
+        }
+        other => rep.violation(Finding { signature: json!({"check": "own_output_rejected", "route": "signed zeros", "D": D}), description: format!("the crate's own document with -0.0 coordinates does not load: {other:?}"), replay: replay.clone() }),
+    }
+}
+
 /// cell data (u8 on every other cell) through the Tds route
 fn cell_data_route<K: Kernel<D, Scalar = f64>, const D: usize>(rep: &Report, cn: &Cn, kname: &str, family: &str, pts: &[[f64; D]]) {
     let vs: Vec<_> = pts.iter().enumerate().map(|(i, c)| alpha::mk_vertex::<i32, D>(*c, 1 + i as u128, Some(i as i32))).collect();
@@ -398,6 +426,9 @@ fn main() {
     let cn = Cn { subjects: AtomicU64::new(0), round_trips: AtomicU64::new(0), followups: AtomicU64::new(0), corruptions: AtomicU64::new(0), corruptions_rejected: AtomicU64::new(0), corruptions_loaded: AtomicU64::new(0) };
     let mut bounds = Vec::new();
     let cap = if thorough { 100 } else { 8 };
+    signed_zero_route::<2>(&rep, &cn);
+    signed_zero_route::<3>(&rep, &cn);
+    signed_zero_route::<4>(&rep, &cn);
     run_family::<2>(&rep, &cn, "G2(3) subsets", &alpha::grid::<2>(3), 3..=5 + x, cap, if thorough { 1 } else { 6 }, &mut bounds);
     run_family::<2>(&rep, &cn, "general position", &gp_points::<2>(8), 3..=6, cap, 0, &mut bounds);
     let mut c3 = alpha::grid::<3>(2);
